@@ -3,7 +3,7 @@
       skip, a loop and an end report). *)
 From Coq Require Import Lia ZArith List.
 From OCI Require Import Machine Checkers.
-From OCI.proofs Require Import Base Trace ArithOk InvKnown ChkKnown IterBase ChkIter ChkAll IterFair GapFree.
+From OCI.proofs Require Import Base Trace ArithOk InvKnown ChkKnown IterBase ChkIter ChkAll IterFair GapFree AfterNone.
 Import ListNotations.
 Open Scope N_scope.
 
@@ -49,11 +49,14 @@ Qed.
 (** ** a wrapped iterator that is not fused
 
     Four elements; the second call of the wrapped next() answers None although three elements remain.
-    Thread 0 pulls a chunk of two: it takes position 0, meets the None, raises the completed flag and
-    publishes its whole reservation.  Thread 1 (a buffered iterator of size two) had tested the flag before
-    it was raised: when its turn comes it still enters the critical section and takes positions 1 and 2
-    under the index 2 of its ticket.  Both threads then pull once more and are told the end: the end is
-    reported although the wrapped iterator has yielded only three of its four elements. *)
+    Thread 0 pulls a chunk of two: it takes position 0 and meets the None.  Thread 1 (a buffered iterator
+    of size two) reserves the next ticket and tests the completed flag BEFORE thread 0 raises it.  Thread 0
+    then raises the flag and publishes its whole reservation: the yielded counter now equals the ticket of
+    thread 1.  Thread 1 loads the yielded counter, finds that it is its turn -- and looks at the completed
+    flag once more (the repair): the flag is up, so it reports the end without touching the wrapped
+    iterator.  (Before the repair it entered the critical section and was handed positions 1 and 2 under
+    the index 2 of its ticket.)  Both threads then pull once more and are told the end: the end is
+    reported although the wrapped iterator has yielded only one of its four elements. *)
 Definition gap_env : env :=
   {| e_kind := KIter; e_adaptor := ANone; e_len := 4; e_start := 0; e_end := 0; e_hint := HInexact;
      e_owning := true; e_mode := Checked; e_crash := None; e_gap := fun k => N.eqb k 1 |}.
@@ -65,7 +68,7 @@ Definition gap_progs : tid -> list op := fun t =>
   | _ => []
   end.
 
-Definition gap_sched : list tid := [0; 0; 0; 0; 0; 0; 1; 1; 1; 1; 0; 0; 1; 1; 1; 1; 0; 0; 0; 1; 1; 1]%nat.
+Definition gap_sched : list tid := [0; 0; 0; 0; 0; 0; 0; 1; 1; 1; 1; 0; 0; 1; 1; 0; 0; 0; 1; 1; 1]%nat.
 
 Lemma gap_wf_progs : wf_progs gap_progs.
 Proof. intros t. destruct t as [|[|t]]; repeat constructor; cbn; rewrite ?W_val; lia. Qed.
@@ -74,43 +77,74 @@ Example gap_hypotheses_hold :
   let c := exec gap_env (init gap_progs) gap_sched in
   iter_env gap_env /\ ~ fused gap_env /\ wf_progs gap_progs /\ nowrap (c_labels c) /\
   (* the end has been reported, nothing is pending, and the wrapped iterator has not been exhausted *)
-  end_reported (c_trace c) = true /\ n_pending (c_trace c) = 0%Z /\ s_cur (c_sh c) = 3 /\ e_len gap_env = 4 /\
-  (* thread 1 was handed position 1 under index 2 *)
-  In (ERet 1%nat (RChunk 2 [mk_run (Some 2) 1 1] 2 1 1) []) (c_trace c) /\
-  (* the end is permanent; index fidelity and the no-loss half of exactly-once do not survive the gap *)
+  end_reported (c_trace c) = true /\ n_pending (c_trace c) = 0%Z /\ s_cur (c_sh c) = 1 /\ e_len gap_env = 4 /\
+  (* the whole history: thread 0 is handed position 0 in a chunk that is short in the middle of the
+     source; thread 1, whose ticket came up after the None, is told the end *)
+  rev (c_trace c) =
+    [ECall 0%nat (Chunk 2 2); ECall 1%nat (BufNew 2); ERet 1%nat RUnit []; ECall 1%nat (BufNext 1);
+     ERet 0%nat (RChunk 0 [mk_run (Some 0) 0 1] 1 1 0) []; ERet 1%nat RNone [];
+     ECall 0%nat (Next NVal); ERet 0%nat RNone []; ECall 1%nat (Next NIdVal); ERet 1%nat RNone []] /\
+  (* the wrapped next() was called twice, by thread 0 only: nobody called it after it answered None *)
+  filter (fun l => match l with LSrc _ _ | LSrcPanic _ => true | _ => false end) (rev (c_labels c)) =
+    [LSrc 0%nat (Some 0); LSrc 0%nat None] /\
+  (* the end is permanent, index fidelity holds (nothing is delivered after the None); the no-loss half of
+     exactly-once and the "short only at the end" clause of the chunk contract do not survive the gap *)
   chk_C05 gap_env (c_trace c) = true /\ chk_C08 gap_env (c_trace c) = true /\
-  chk_C02 gap_env (c_trace c) = false /\ chk_C01_noloss gap_env (c_trace c) = false.
+  chk_C02 gap_env (c_trace c) = true /\ chk_C01_nodup gap_env (c_trace c) = true /\ chk_C07 (c_labels c) = true /\
+  chk_C01_noloss gap_env (c_trace c) = false /\ chk_C03 gap_env (c_trace c) = false.
 Proof.
   cbv zeta.
   split; [split; [unfold wf_env; cbn; rewrite W_val; lia|reflexivity]|].
   split; [intros H; specialize (H 1); discriminate H|].
   split; [exact gap_wf_progs|]. split; [apply nowrapb_ok; vm_compute; reflexivity|].
   split; [vm_compute; reflexivity|]. split; [vm_compute; reflexivity|]. split; [vm_compute; reflexivity|].
-  split; [vm_compute; reflexivity|]. split; [vm_compute; auto 10|].
+  split; [vm_compute; reflexivity|]. split; [vm_compute; reflexivity|]. split; [vm_compute; reflexivity|].
+  split; [vm_compute; reflexivity|]. split; [vm_compute; reflexivity|]. split; [vm_compute; reflexivity|].
   split; [vm_compute; reflexivity|]. split; [vm_compute; reflexivity|]. split; vm_compute; reflexivity.
 Qed.
 
+(** a thread leaves through the second look at the completed flag: after fourteen steps of the run above
+    thread 1 has found its ticket equal to the yielded counter while the completed flag is up; its next
+    step loads the flag (Relaxed), reports the end, and touches neither the wrapped iterator nor the
+    counters *)
+Example leaves_at_its_turn :
+  let c14 := exec gap_env (init gap_progs) (firstn 14 gap_sched) in
+  let c15 := exec gap_env (init gap_progs) (firstn 15 gap_sched) in
+  t_pc (c_pool c14 1%nat) = PChkT {| q_n := 2; q_mode := MBuf 1; q_ctx := CTop |} 2 /\
+  s_f (c_sh c14) = true /\ s_y (c_sh c14) = 2 /\
+  hd_error (c_labels c14) = Some (LAtom 1%nat SY ALoad 0 2 ord_yielded_read_progress) /\
+  c_sh c15 = c_sh c14 /\ t_pc (c_pool c15 1%nat) = PIdle /\
+  c_labels c15 = LAtom 1%nat SF ALoad 0 1 ord_completed_load_progress_turn :: c_labels c14 /\
+  c_trace c15 = ERet 1%nat RNone [] :: c_trace c14.
+Proof.
+  cbv zeta. split; [vm_compute; reflexivity|]. split; [vm_compute; reflexivity|]. split; [vm_compute; reflexivity|].
+  split; [vm_compute; reflexivity|]. split; [vm_compute; reflexivity|]. split; [vm_compute; reflexivity|].
+  split; vm_compute; reflexivity.
+Qed.
+
 (** the hypothesis of the "until the first premature None" theorems is satisfiable by an iterator that is
-    not fused: after the first five steps of the run above the wrapped next() has been called once and has
-    yielded position 0; the sixth step is the call that answers None although three elements remain *)
+    not fused: after the first six steps of the run above the wrapped next() has been called once and has
+    yielded position 0; the seventh step is the call that answers None although three elements remain *)
 Example gap_free_prefix :
-  gap_free gap_env (s_calls (c_sh (exec gap_env (init gap_progs) (firstn 5 gap_sched)))) /\
-  s_cur (c_sh (exec gap_env (init gap_progs) (firstn 5 gap_sched))) = 1 /\
-  ~ gap_free gap_env (s_calls (c_sh (exec gap_env (init gap_progs) (firstn 6 gap_sched)))).
+  gap_free gap_env (s_calls (c_sh (exec gap_env (init gap_progs) (firstn 6 gap_sched)))) /\
+  s_cur (c_sh (exec gap_env (init gap_progs) (firstn 6 gap_sched))) = 1 /\
+  ~ gap_free gap_env (s_calls (c_sh (exec gap_env (init gap_progs) (firstn 7 gap_sched)))).
 Proof.
   split; [|split].
-  - intros k Hk. assert (Hc : s_calls (c_sh (exec gap_env (init gap_progs) (firstn 5 gap_sched))) = 1) by (vm_compute; reflexivity).
+  - intros k Hk. assert (Hc : s_calls (c_sh (exec gap_env (init gap_progs) (firstn 6 gap_sched))) = 1) by (vm_compute; reflexivity).
     rewrite Hc in Hk. assert (k = 0) as -> by lia. reflexivity.
   - vm_compute. reflexivity.
-  - intros H. assert (Hc : s_calls (c_sh (exec gap_env (init gap_progs) (firstn 6 gap_sched))) = 2) by (vm_compute; reflexivity).
+  - intros H. assert (Hc : s_calls (c_sh (exec gap_env (init gap_progs) (firstn 7 gap_sched))) = 2) by (vm_compute; reflexivity).
     rewrite Hc in H. specialize (H 1 ltac:(lia)). discriminate H.
 Qed.
 
-(** the checker of the no-duplicate half of C01 accounts for the elements of a chunk that the caller did
-    not take by the INDEX of the chunk, and for the elements that were taken by their VALUE: once a gap
-    has made the two differ, it objects to a run on which no element is delivered twice (thread 1 leaves
-    positions 2 and 3 in its chunk of index 3, thread 2 is handed position 4 under index 5) -- while no
-    position is moved out or destroyed twice (C08) *)
+(** before the repair, the run below handed position 4 to thread 2 under index 5 and left positions 2 and 3
+    in a chunk of index 3 of thread 1: the checker of the no-duplicate half of C01 (which accounts for the
+    elements left in a chunk by the INDEX of the chunk and for the others by their VALUE) objected to it.
+    With the repair the two threads whose tickets come up after the None are told the end: indices and
+    positions never differ, and the checker no longer objects.  What remains of the gap: the chunk of
+    thread 0 is short in the middle of the source (C03 judged with the length of the source), and the end
+    is reported while elements remain *)
 Definition gap2_env : env :=
   {| e_kind := KIter; e_adaptor := ANone; e_len := 6; e_start := 0; e_end := 0; e_hint := HInexact;
      e_owning := true; e_mode := Checked; e_crash := None; e_gap := fun k => N.eqb k 2 |}.
@@ -119,17 +153,18 @@ Definition gap2_progs : tid -> list op := fun t =>
   match t with 0%nat => [Chunk 3 3] | 1%nat => [Chunk 2 0] | 2%nat => [Next NVal] | _ => [] end.
 
 Definition gap2_sched : list tid :=
-  [0; 0; 1; 1; 2; 2; 0; 0; 1; 2; 1; 2; 0; 0; 0; 1; 2; 0; 0; 1; 1; 1; 1; 2; 2; 2]%nat.
+  [0; 0; 1; 1; 2; 2; 0; 0; 1; 2; 1; 2; 0; 0; 0; 0; 1; 2; 0; 0; 1; 1; 2; 2]%nat.
 
-Example gap_breaks_the_mixed_accounting :
+Example gap_mixed_accounting_repaired :
   let c := exec gap2_env (init gap2_progs) gap2_sched in
   iter_env gap2_env /\ nowrap (c_labels c) /\
   rev (c_trace c) =
     [ECall 0%nat (Chunk 3 3); ECall 1%nat (Chunk 2 0); ECall 2%nat (Next NVal);
      ERet 0%nat (RChunk 0 [mk_run (Some 0) 0 2] 2 2 0) [];
-     ERet 1%nat (RChunk 3 [] 2 0 2) [{| d_lo := 2; d_cnt := 2 |}];
-     ERet 2%nat (ROne (mk_run None 4 1)) []] /\
-  chk_C01_nodup gap2_env (c_trace c) = false /\ chk_C03 gap2_env (c_trace c) = false /\
+     ERet 1%nat RNone [];
+     ERet 2%nat RNone []] /\
+  chk_C01_nodup gap2_env (c_trace c) = true /\ chk_C02 gap2_env (c_trace c) = true /\
+  chk_C03 gap2_env (c_trace c) = false /\ chk_C01_noloss gap2_env (c_trace c) = false /\
   pairwise_disj (taken_all gap2_env (c_trace c) ++ dropped_all (c_trace c)) = true /\
   chk_C05 gap2_env (c_trace c) = true /\ chk_C07 (c_labels c) = true /\ chk_C08 gap2_env (c_trace c) = true.
 Proof.
@@ -137,5 +172,38 @@ Proof.
   split; [split; [unfold wf_env; cbn; rewrite W_val; lia|reflexivity]|].
   split; [apply nowrapb_ok; vm_compute; reflexivity|].
   split; [vm_compute; reflexivity|]. split; [vm_compute; reflexivity|]. split; [vm_compute; reflexivity|].
-  split; [vm_compute; reflexivity|]. split; [vm_compute; reflexivity|]. split; vm_compute; reflexivity.
+  split; [vm_compute; reflexivity|]. split; [vm_compute; reflexivity|]. split; [vm_compute; reflexivity|].
+  split; [vm_compute; reflexivity|]. split; vm_compute; reflexivity.
+Qed.
+
+(** the two runs above, judged against the fused iterator that ends where the first None was answered
+    ([AfterNone.cut]): the hypotheses of the "any iterator" theorems are satisfiable by iterators that are
+    not fused, the whole of C01, C03 and C12 holds with the length of the source replaced by the number of
+    elements yielded before the first None, the run of the cut environment is the very same run, and the
+    wrapped next() is never called after it has answered None *)
+Example gap_judged_against_the_cut :
+  let c := exec gap_env (init gap_progs) gap_sched in
+  let c2 := exec gap2_env (init gap2_progs) gap2_sched in
+  first_gap gap_env 1 /\ e_len (cut gap_env 1) = 1 /\
+  first_gap gap2_env 2 /\ e_len (cut gap2_env 2) = 2 /\
+  check_prop 1 (cut gap_env 1) (c_trace c) (c_labels c) = true /\
+  check_prop 3 (cut gap_env 1) (c_trace c) (c_labels c) = true /\
+  check_prop 12 (cut gap_env 1) (c_trace c) (c_labels c) = true /\
+  check_prop 1 (cut gap2_env 2) (c_trace c2) (c_labels c2) = true /\
+  check_prop 3 (cut gap2_env 2) (c_trace c2) (c_labels c2) = true /\
+  c_trace (exec (cut gap_env 1) (init gap_progs) gap_sched) = c_trace c /\
+  c_labels (exec (cut gap_env 1) (init gap_progs) gap_sched) = c_labels c /\
+  c_sh (exec (cut gap_env 1) (init gap_progs) gap_sched) = c_sh c /\
+  no_src_after_none (c_labels c) = true /\ no_src_after_none (c_labels c2) = true /\
+  existsb is_none (c_labels c) = true /\ existsb is_none (c_labels c2) = true.
+Proof.
+  cbv zeta.
+  split; [split; [intros k Hk; assert (k = 0) as -> by lia; reflexivity|reflexivity]|].
+  split; [reflexivity|].
+  split; [split; [intros k Hk; assert (k = 0 \/ k = 1) as [-> | ->] by lia; reflexivity|reflexivity]|].
+  split; [reflexivity|].
+  split; [vm_compute; reflexivity|]. split; [vm_compute; reflexivity|]. split; [vm_compute; reflexivity|].
+  split; [vm_compute; reflexivity|]. split; [vm_compute; reflexivity|]. split; [vm_compute; reflexivity|].
+  split; [vm_compute; reflexivity|]. split; [vm_compute; reflexivity|]. split; [vm_compute; reflexivity|].
+  split; [vm_compute; reflexivity|]. split; vm_compute; reflexivity.
 Qed.
